@@ -79,6 +79,18 @@ def _one(args):
                         if not close(got, R(exp[key])):
                             out.append(({"fn": fname, "kind": "value", "weighted": weighted, "enc": repr((neg, pos, pl))},
                                         f"{fname} = {got!r}, specification says {exp[key]}", {"y_true": yt, "y_pred": yp, "kwargs": repr(k2)}))
+                # fractional weights whose total is below one (e.g. globally normalised weights restricted to a subgroup)
+                if oi == 0 and weighted and (neg, pos) == (0, 1) and pl is None:
+                    tot = float(sum(wts)) * 4.0
+                    fw = [x / tot for x in wts]
+                    for fname, key in (("mean_prediction", "mean"), ("selection_rate", "sel"), ("true_positive_rate", "tpr"), ("false_positive_rate", "fpr")):
+                        try:
+                            got = getattr(fm, fname)(yt, yp, sample_weight=fw)
+                            nevals += 1
+                            if np.ndim(got) != 0 or not close(got, R(case["w"][key])):
+                                out.append(({"fn": fname, "kind": "value", "weights": "fractional_total_below_one"}, f"{fname} with weights summing to 0.25 = {got!r}, specification {case['w'][key]}", {"y_pred": yp, "w": fw}))
+                        except Exception as e2:
+                            out.append(({"fn": fname, "kind": "exception", "weights": "fractional"}, f"{fname} raised {e2!r}", {"y_pred": yp}))
                 # predictions stored with a narrow dtype (bool / uint8): the value of the metric does not depend on the storage type
                 if oi == 0 and (neg, pos) == (0, 1) and pl is None:
                     for dt in (bool, np.uint8, np.int8):
